@@ -15,3 +15,20 @@ func safeResolve(root *ggql.Root, doc, op string, vars map[string]interface{}) (
 	}()
 	return root.ResolveString(doc, op, vars)
 }
+
+// safeResolveExe resolves an already parsed executable and assembles the envelope as ResolveReader does.
+func safeResolveExe(root *ggql.Root, exe *ggql.Executable, op string, vars map[string]interface{}) (res map[string]interface{}) {
+	defer func() {
+		if r := recover(); r != nil {
+			res = map[string]interface{}{"panic": fmt.Sprint(r)}
+		}
+	}()
+	result, err := root.ResolveExecutable(exe, op, vars)
+	if result == nil {
+		result = map[string]interface{}{"data": nil}
+	}
+	if err != nil {
+		result["errors"] = ggql.FormErrorsResult(err)
+	}
+	return result
+}
